@@ -71,7 +71,7 @@ func LargeSpecs() []*Spec {
 }
 
 // Caps probes which optional operations a spec's pool supports.
-type Caps struct{ Renew, Epoch, Specific, RelVal, Reload, Reapply, Fault bool }
+type Caps struct{ Renew, Epoch, Specific, RelVal, Reload, Reapply, Fault, Move bool }
 
 func ProbeCaps(s *Spec) Caps {
 	p, err := s.New()
@@ -87,6 +87,7 @@ func ProbeCaps(s *Spec) Caps {
 	_, c.Reload = p.(Reloader)
 	_, c.Reapply = p.(Resetter)
 	_, c.Fault = p.(FaultInjectable)
+	_, c.Move = p.(Mover)
 	return c
 }
 
@@ -121,6 +122,9 @@ func Alphabet(c Caps, nsubs int, faults bool) []Sym {
 	}
 	if c.Reapply {
 		out = append(out, Sym{Op{K: "reapply", Sub: subNames[0]}, 0})
+	}
+	if c.Move {
+		out = append(out, Sym{Op{K: "move", Sub: subNames[0], V: "-1"}, 0}, Sym{Op{K: "move", Sub: subNames[1], V: "0"}, 1})
 	}
 	if faults && c.Fault {
 		out = append(out, Sym{Op{K: "fail", V: "1"}, -1})
@@ -215,7 +219,9 @@ func RandomHistory(s *Spec, c Caps, rng *rand.Rand, n int, faults bool) []Op {
 			out = append(out, Op{K: "reload"})
 		case x < 95 && c.Reapply:
 			out = append(out, Op{K: "reapply", Sub: sub(pick())})
-		case x < 97 && faults && c.Fault:
+		case x < 96 && c.Move:
+			out = append(out, Op{K: "move", Sub: sub(pick()), V: fmt.Sprint(rng.IntN(64) - 8)})
+		case x < 98 && faults && c.Fault:
 			out = append(out, Op{K: "fail", V: "1"})
 		default:
 			out = append(out, Op{K: "alloc", Sub: sub(pick())})
